@@ -101,6 +101,10 @@ class Program:
                     tree = ast.parse(source, filename=path)
                 except SyntaxError as err:
                     raise AnalysisError(f"cannot parse {path}: {err}") from err
+                if not os.environ.get("NGOSA_NO_NFORM"):
+                    from . import nform
+
+                    tree = nform.normal_form(tree)
                 mod = Module(rel, path, source, tree)
                 self.modules[rel] = mod
                 before = set(self.funcs)
@@ -112,6 +116,8 @@ class Program:
                         self._alpha_ref = alpha.load_ref()
                     mine = {q: f.node for q, f in self.funcs.items() if q not in before}
                     self.alpha_renamed += alpha.normalise(mine, self._alpha_ref, tree)
+                if not os.environ.get("NGOSA_NO_NFORM"):
+                    nform.sort_operands(tree)
 
     def _index_module(self, mod: Module) -> None:
         assigned: dict[str, int] = {}
